@@ -229,7 +229,9 @@ func runGroup(r *ev.Run, g string, scs []Scenario) {
 	single, scen, maxTrace, maxThreads := 0, 0, 0, 0
 	for _, gr := range results {
 		if gr.HarnessError != "" {
-			ev.HarnessError("group %s: %s", g, gr.HarnessError)
+			r.DeferHarnessError("group %s: %s", g, gr.HarnessError)
+			sub.Exhaustive = false
+			continue
 		}
 		scen += gr.Scenarios
 		sub.Evaluations += gr.Executions
@@ -486,7 +488,9 @@ func runScenario(r *ev.Run, s Scenario) {
 			counters[k] += v
 		}
 		if st.HarnessError != "" {
-			ev.HarnessError("scenario %s: %s", s.Name, st.HarnessError)
+			r.DeferHarnessError("scenario %s: %s", s.Name, st.HarnessError)
+			sub.Exhaustive = false
+			return
 		}
 		sub.Evaluations += st.Executions
 		sub.Nontrivial += st.Blocked
